@@ -42,7 +42,10 @@ def _run_task(args):
             conf_small = None
             if task.get("configure_small"):
                 conf_small = getattr(importlib.import_module(task["module"]), task["configure_small"])
-            out = R.run_contract(inst, timeout_ms, conf, conf_small)
+            conf_small2 = None
+            if task.get("configure_small2"):
+                conf_small2 = getattr(importlib.import_module(task["module"]), task["configure_small2"])
+            out = R.run_contract(inst, timeout_ms, conf, conf_small, conf_small2)
         elif task["kind"] == "lemma":
             out = R.run_lemma(inst, timeout_ms, conf)
         elif task["kind"] in ("scan", "bounded", "custom"):
@@ -238,7 +241,7 @@ def check(prop, tier, seed):
 
     # --- undecided / errors ---------------------------------------------------------
     for out, r in unknown:
-        ss = (out.get("info", {}).get("small_scope") or {}).get("status_of_open", {}).get(r["oid"])
+        ss = "; ".join(f"{x['scope'][:22]}: {x['status_of_open'].get(r['oid'])}" for x in out.get("info", {}).get("small_scopes", []))
         lines.append(f"UNDECIDED property={prop} obligation={r['oid']} reason={r.get('detail', '')[:200]}"
                      + (f" | small scope: {ss}" if ss else ""))
         if exit_code == 0:
